@@ -63,4 +63,32 @@ theorem same_len (x k s : Nat) (hx : 0 < x) (hk : 0 < k) (hs : 0 < s) (pb pe : N
   simp only [hge, if_false, hdiv]
   omega
 
+/-! ## Layer-norm / RMS-norm over a field with an abstract square-root function (one normalised row of length `n`) -/
+
+/-- `ReduceMean(·, axes=[-1], keepdims=1)` on one row. -/
+def meanF {α : Type} [Field α] (n : Nat) (x : Nat → α) : α := (∑ k ∈ Finset.range n, x k) / n
+
+/-- ONNX `LayerNormalization(X, Scale, axis=-1, epsilon)` on one row: `(x - mean) / sqrt(var + eps) * scale`. -/
+def layerNormSpec {α : Type} [Field α] (sqrtf : α → α) (n : Nat) (eps : α) (scale x : Nat → α) (i : Nat) : α :=
+  (x i - meanF n x) / sqrtf (meanF n (fun k => (x k - meanF n x) ^ 2) + eps) * scale i
+
+/-- The matched sub-graph of `LayerNormFusion`: `usePow` = `Pow(d, 2)` instead of `Mul(d, d)`; `useDiv` = `Div(d, std)` instead
+of `Mul(d, Reciprocal(std))`. -/
+def layerNormPattern {α : Type} [Field α] (sqrtf : α → α) (usePow useDiv : Bool) (n : Nat) (eps : α) (scale x : Nat → α) (i : Nat) : α :=
+  let mean := meanF n x
+  let d := fun k => x k - mean
+  let dd := fun k => if usePow then d k ^ 2 else d k * d k
+  let sd := sqrtf (meanF n dd + eps)
+  (if useDiv then d i / sd else d i * sd⁻¹) * scale i
+
+/-- ONNX `RMSNormalization(X, Scale, axis=-1, epsilon)` on one row: `x / sqrt(mean(x²) + eps) * scale`. -/
+def rmsNormSpec {α : Type} [Field α] (sqrtf : α → α) (n : Nat) (eps : α) (scale x : Nat → α) (i : Nat) : α :=
+  x i / sqrtf (meanF n (fun k => x k ^ 2) + eps) * scale i
+
+/-- The matched sub-graph of `RmsNormFusion` (`scaleFirst` = `Mul(scale, normalized)`). -/
+def rmsNormPattern {α : Type} [Field α] (sqrtf : α → α) (scaleFirst : Bool) (n : Nat) (eps : α) (scale x : Nat → α) (i : Nat) : α :=
+  let r := sqrtf (meanF n (fun k => x k ^ (2 : Nat)) + eps)
+  let nrm := x i * r⁻¹
+  if scaleFirst then scale i * nrm else nrm * scale i
+
 end OV.Lemmas.C05Algebra
